@@ -13,14 +13,14 @@ LEVEL = "model_checking"
 ENGINE = "G"
 # tier -> layers (program nodes <= n, handler-set sizes hmin..hmax); the layers of a tier are disjoint in the handler-set size
 BOUNDS = {"quick": [(3, 0, 2)], "thorough": [(4, 0, 2), (3, 3, 3)]}
-LEAVES = (("Y", "read", "d1"), ("Y", "read", "d2"), ("Y", "set", "d1"), ("Y", "null"), ("Raise", 2), ("Ret", 7))
-CMDSPECS = ("read", ("read", "set"))
+LEAVES = (("Y", "read", "d1"), ("Y", "read", "d2"), ("Y", "set", "d1"), ("Y", "stage", "d1"), ("Y", "null"), ("Raise", 2), ("Ret", 7))
+CMDSPECS = ("read", ("read", "set"), "unstage")  # 'unstage' (a plain string) must not match the 'stage' messages of the plans
 FILTERS = (None, "name:d1", "pred:d2")
 INDEXES = (0, "end")
 VALUESETS = ((0, {}, False), ("a", "b", "c"))
 RULE = (
-    "G: every plan program with <= N nodes over messages {read d1, read d2, set d1, null} + raise + return, x every "
-    "ordered handler set of <= H handlers (quick: N=3,H<=2; thorough: N=4,H<=2 plus N=3,H=3) from {commands 'read' | ['read','set']} x {no filter, obj-name filter, "
+    "G: every plan program with <= N nodes over messages {read d1, read d2, set d1, stage d1, null} + raise + return, x every "
+    "ordered handler set of <= H handlers (quick: N=3,H<=2; thorough: N=4,H<=2 plus N=3,H=3) from {commands 'read' | ['read','set'] | 'unstage' (never yielded; contains the yielded 'stage')} x {no filter, obj-name filter, "
     "predicate} x {inserted at index 0, at END}, handler results falsy (0, {}, False by position) and truthy; oracle: simulate_plan returns "
     "exactly the yielded Msg objects in order; each yield receives the result of the first matching handler in list order (index 0 = newest "
     "first; END = appended, as add_handler documents) else None; return_value = the plan's return value (and is replaced by the next "
